@@ -24,6 +24,8 @@ type diffOpts struct {
 	Stdin    string
 	Layout   *ast.Layout
 	Residue  bool // check (sp, frames, closures, contexts) after each statement
+	Globals  bool // compare the complete global frame with the reference after each statement
+	Marker   string // a marker that must never appear in the program output (self-checks written in calc)
 	StepMult int
 }
 
@@ -149,6 +151,28 @@ func runDiff(stmts []ast.Node, o diffOpts) (out diffOutcome) {
 		if want.Err == "" && o.DoOut && !sameValue(got.Value, want.Value) {
 			fail("differential", fmt.Sprintf("value %s, reference %s", trunc(val.Debug(got.Value), 300), trunc(val.Debug(want.Value), 300)))
 			return
+		}
+		if o.Marker != "" && strings.Contains(got.Out, o.Marker) {
+			fail("self-check", fmt.Sprintf("the program's own before/after comparison fired: %q", trunc(got.Out, 400)))
+			return
+		}
+		if o.Globals {
+			gg := ses.Globals()
+			for name, v := range ref.Globals {
+				if name == "vpre" {
+					continue
+				}
+				if gv, ok := gg[name]; !ok || gv != val.Debug(v) {
+					fail("globals-frame", fmt.Sprintf("global %s is %s, reference %s", name, trunc(gv, 200), trunc(val.Debug(v), 200)))
+					return
+				}
+			}
+			for name := range gg {
+				if _, ok := ref.Globals[name]; !ok && name != "vpre" {
+					fail("globals-frame", fmt.Sprintf("global %s = %s exists although no top-level statement assigned it", name, trunc(gg[name], 200)))
+					return
+				}
+			}
 		}
 		if o.Residue {
 			if want.Err != "" {
